@@ -620,6 +620,12 @@ impl World {
 			};
 		}
 		g.stats.raw_ops += 1;
+		if g.exec == ExecMode::Solo && g.stats.raw_ops > SOLO_RAW_OP_BUDGET && g.aborted.is_none() {
+			// a single thread that keeps issuing raw operations without ever finishing: livelock
+			let d = format!("the single thread of a solo episode issued more than {SOLO_RAW_OP_BUDGET} raw lock operations without finishing (livelock)");
+			push_violation(&mut g, "C01", "no_progress_single_thread", d);
+			g.aborted = Some(Abort::Budget);
+		}
 		let op_index = g.threads[tid as usize].ops.len() as u32;
 		let call_ord = g.threads[tid as usize].calls;
 		let raw_seq = g.threads[tid as usize].raw_seq;
@@ -1324,6 +1330,9 @@ fn grantable(g: &Inner, tid: Tid, lock: LockId, mode: Mode) -> bool {
 }
 
 const QUEUED_WRITER: Tid = PHANTOM + 777;
+
+/// far above anything a terminating solo episode issues (the largest sweeps stay below 10^7)
+const SOLO_RAW_OP_BUDGET: u64 = 200_000_000;
 
 fn queue_phantom_writer(g: &mut Inner, tid: Tid, lock: LockId, mode: Mode) {
 	if g.writer_queues && g.exec == ExecMode::Solo && g.policy == Policy::WriterPref && mode == Mode::Shared && tid < PHANTOM {
